@@ -46,18 +46,32 @@ Contract reading (line numbers: optuna/pruners/*.py of the tree under test)
   Nop            always False.
   no report      _trial.py:512-515: before the first report every pruner answers False.
 
-Mutations of optuna this check must catch (verified on a scratch copy unless marked):
-  M1 _percentile.py _is_first_in_interval_step: drop the warm-up offset
-     (nearest = step // interval_steps * interval_steps)      -> threshold|prunes-iff..., */pruned-between-interval-checks
-  M2 _successive_halving.py _is_trial_promotable_to_next_rung: MINIMIZE compares with
-     competing_values[-(promotable_idx + 1)] (direction mix-up) -> sha|dominant-trial-pruned|minimize, hyperband|...
-  M3 _threshold.py: `latest_value >= self._upper`              -> threshold|prunes-iff-checked-value-nan-or-out-of-bounds
+Mutations of optuna this check must catch (ALL verified on a scratch copy with --tier quick; the
+violation keys observed are listed):
+  M1 _percentile.py _is_first_in_interval_step: alignment without the warm-up offset
+     (`step // interval_steps * interval_steps`)
+     -> median|/percentile|pruned-between-interval-checks|{minimize,maximize},
+        threshold|prunes-iff-checked-value-nan-or-out-of-bounds|expected-{True,False}
+  M2 _successive_halving.py _is_trial_promotable_to_next_rung: MINIMIZE branch returns
+     `value >= competing_values[-(promotable_idx + 1)]` (direction mix-up); likewise `>` for `>=` in
+     the MAXIMIZE branch -> sha|dominant-trial-pruned|minimize (resp. maximize), hyperband|dominant-trial-pruned|...
+  M3 _threshold.py: `latest_value >= self._upper` -> threshold|prunes-iff-checked-value-nan-or-out-of-bounds|expected-False
   M4 _patient.py: MINIMIZE uses np.nanmax(scores_after_patience) -> patient|pruned-while-improving-within-patience|minimize
-  M5 _hyperband.py _get_bracket_id: trial._trial_id instead of trial.number -> hyperband|bracket-depends-on-more-than-name-and-number
-  M6 _percentile.py prune: states=(COMPLETE, RUNNING) for the start-up count -> */pruned-before-startup-trials-finished
-  M7 _percentile.py prune: `step < n_warmup_steps - 1`           -> */pruned-during-warmup
-  (a mutation that only makes a pruner MORE conservative, e.g. `step <= n_warmup_steps` in
-   _percentile.py, is invisible to a safety oracle by construction; in _threshold.py it is caught by the IFF.)
+  M5 _hyperband.py _get_bracket_id: trial._trial_id instead of trial.number
+     -> hyperband|bracket-depends-on-more-than-name-and-number
+  M6 _percentile.py prune: states=(COMPLETE, RUNNING) for the start-up count
+     -> median|/percentile|pruned-before-startup-trials-finished|{minimize,maximize}
+  M7 _percentile.py prune: `step < n_warmup_steps - 1` -> median|/percentile|pruned-during-warmup|...
+  M8 _threshold.py prune: `step <= n_warmup_steps` -> threshold|prunes-iff-...|expected-True
+  M9 _successive_halving.py prune: `step < rung_promotion_step - 1`
+     -> sha|pruned-before-first-rung|..., hyperband|pruned-before-min-resource|..., hyperband|pruned-before-first-rung-of-bracket|...
+  M10 _successive_halving.py _estimate_min_resource: RUNNING trials counted too
+     -> sha|pruned-before-auto-min-resource-determined|...
+  M11 _nop.py: prune after step 2 -> nop|nop-pruned|...
+  also: promotable_idx off by one (`- 2`) -> sha|raised-IndexError, _patient.py `steps.size <= patience` ->
+  patient|raised-ValueError (an exception inside should_prune is reported as a violation, never as a pass).
+  By construction NOT caught (safety oracle): mutations that only make a pruner more conservative, e.g.
+  `step <= n_warmup_steps` in _percentile.py (the same edit in _threshold.py is caught by the IFF, M8).
 """
 from __future__ import annotations
 
@@ -290,14 +304,15 @@ def blocks(tier: str) -> dict[str, dict]:
     # cost = measured CPU seconds per (direction, history, sequence) [stateful: per setting as well];
     # only used to cut the blocks into tasks of similar size
     # --- median / percentile ------------------------------------------------------------------
-    add("pct-grid", "percentile", G_ALL, hist_upto(K_SMALL4 if quick else K_SMALL, 2), SEQ_CONST if quick else SEQ_EXT,
-        0.007)
+    add("pct-grid", "percentile", G_ALL, hist_upto(K_SMALL4, 2), SEQ_CONST if quick else SEQ_EXT, 0.007)
     add("pct-1other", "percentile", G_VAL, hist_upto(K_FULL, 1), SEQ_CONST2 if quick else SEQ_CONST, 0.0013)
     add("pct-mixedseq", "percentile", G_VAL, hist_upto(K_SMALL, 1), SEQ_EXT if quick else SEQ_FULL, 0.0014)
     if not quick:
-        add("pct-grid-3others", "percentile", G_ALL, hist_upto(K_TINY, 3, exactly=True), SEQ_CONST, 0.007)
-        K_PAIR = kinds(assignments([(), FULL4, (0, 2), (1, 3), (3,)], (0.0, 2.0, NAN)), "CR")  # 206
-        add("pct-2others", "percentile", G_VAL, hist_upto(K_PAIR, 2, ordered=False, exactly=True), SEQ_CONST2, 0.0013)
+        K5P = [K_TINY[0], K_TINY[1], K_TINY[5], K_TINY[6], K_TINY[2]]  # C full, C mixed, P gap, R full, C gap
+        add("pct-grid-3others", "percentile", G_ALL, hist_upto(K5P, 3, exactly=True), SEQ_CONST, 0.007)
+        K_PAIR = kinds(assignments([(), FULL4, (1, 3)], (0.0, 2.0, NAN)), "CR")  # 182
+        pairs = [h for h in hist_upto(K_PAIR, 2, ordered=False, exactly=True) if any(st == "C" for st, _ in h)]
+        add("pct-2others", "percentile", G_VAL, pairs, SEQ_CONST2, 0.0013)
     # --- threshold / nop ------------------------------------------------------------------------
     add("threshold", "threshold", grid_threshold(), H_FEW if quick else hist_upto(K_SMALL, 1), SEQ_FULL, 0.0011)
     add("nop", "nop", [("nop",)], hist_upto(K_SMALL, 1), SEQ_EXT if quick else SEQ_FULL, 0.0008)
@@ -306,7 +321,7 @@ def blocks(tier: str) -> dict[str, dict]:
         H_FEW if quick else hist_upto(K_SMALL, 1), SEQ_FULL, 0.003)
     if not quick:
         add("patient-2others", "patient", grid_patient(), hist_upto(K_TINY, 2, exactly=True), SEQ_EXT, 0.003)
-        add("patient-1other", "patient", grid_patient(), hist_upto(K_MID, 1), SEQ_EXT, 0.0025)
+        add("patient-1other", "patient", grid_patient(), hist_upto(kinds(IV_MID, "CR"), 1), SEQ_EXT, 0.0025)
     # --- successive halving / hyperband (stateful: one study per setting, others driven) --------
     add("sha", "sha", grid_sha(), hist_upto(K_TINY, 2), SEQ_CONST if quick else SEQ_EXT, 0.0005)
     add("hyperband", "hyperband", grid_hyperband(), hist_upto(K_TINY, 2), SEQ_CONST if quick else SEQ_EXT, 0.0009)
